@@ -12,22 +12,26 @@ use crate::plan::*;
 use crate::trace::*;
 
 pub type Pair = (i64, i64);
+pub type Trip = (Pair, i64);
 
 #[derive(Clone)]
 pub enum NodeH {
     I(Incr<i64>),
     P(Incr<Pair>),
+    Q(Incr<Trip>),
 }
 #[derive(Clone)]
 pub enum WeakH {
     I(WeakIncr<i64>),
     P(WeakIncr<Pair>),
+    Q(WeakIncr<Trip>),
 }
 impl WeakH {
     pub fn strong_count(&self) -> usize {
         match self {
             WeakH::I(w) => w.strong_count(),
             WeakH::P(w) => w.strong_count(),
+            WeakH::Q(w) => w.strong_count(),
         }
     }
 }
@@ -36,16 +40,21 @@ impl NodeH {
         match self {
             NodeH::I(n) => WeakH::I(n.weak()),
             NodeH::P(n) => WeakH::P(n.weak()),
+            NodeH::Q(n) => WeakH::Q(n.weak()),
         }
     }
     pub fn engine_id(&self) -> usize {
         match self {
             NodeH::I(n) => n.verif_id(),
             NodeH::P(n) => n.verif_id(),
+            NodeH::Q(n) => n.verif_id(),
         }
     }
     pub fn is_pair(&self) -> bool {
         matches!(self, NodeH::P(_))
+    }
+    pub fn is_trip(&self) -> bool {
+        matches!(self, NodeH::Q(_))
     }
     pub fn i(&self) -> Option<&Incr<i64>> {
         match self {
@@ -57,6 +66,7 @@ impl NodeH {
 pub enum ObsH {
     I(Observer<i64>),
     P(Observer<Pair>),
+    Q(Observer<Trip>),
 }
 pub enum VarH {
     I(Var<i64>),
@@ -74,6 +84,11 @@ impl ToMV for i64 {
 impl ToMV for Pair {
     fn mv(&self) -> MV {
         MV::P(self.0, self.1)
+    }
+}
+impl ToMV for Trip {
+    fn mv(&self) -> MV {
+        MV::Q(self.0 .0, self.0 .1, self.1)
     }
 }
 
@@ -94,24 +109,28 @@ impl ObsH {
         match self {
             ObsH::I(o) => o.try_get_value().map(MV::I).map_err(conv_err),
             ObsH::P(o) => o.try_get_value().map(|p| p.mv()).map_err(conv_err),
+            ObsH::Q(o) => o.try_get_value().map(|p| p.mv()).map_err(conv_err),
         }
     }
     pub fn clone_handle(&self) -> ObsH {
         match self {
             ObsH::I(o) => ObsH::I(o.clone()),
             ObsH::P(o) => ObsH::P(o.clone()),
+            ObsH::Q(o) => ObsH::Q(o.clone()),
         }
     }
     pub fn disallow(&self) {
         match self {
             ObsH::I(o) => o.disallow_future_use(),
             ObsH::P(o) => o.disallow_future_use(),
+            ObsH::Q(o) => o.disallow_future_use(),
         }
     }
     pub fn unsubscribe(&self, t: SubscriptionToken) -> Result<(), ObsErr> {
         match self {
             ObsH::I(o) => o.unsubscribe(t).map_err(conv_err),
             ObsH::P(o) => o.unsubscribe(t).map_err(conv_err),
+            ObsH::Q(o) => o.unsubscribe(t).map_err(conv_err),
         }
     }
 }
@@ -120,6 +139,7 @@ pub struct NodeEntry {
     pub h: Option<NodeH>,
     pub weak: WeakH,
     pub pair: bool,
+    pub trip: bool,
     pub rk: RK,
     pub scope: Option<(Hid, u32)>,
     /// top level and not depending on any node created inside a bind closure
@@ -313,12 +333,14 @@ impl World {
     ) -> Hid {
         let engine_id = h.engine_id();
         let pair = h.is_pair();
+        let trip = h.is_trip();
         let hid = {
             let mut nodes = self.nodes.borrow_mut();
             nodes.push(NodeEntry {
                 weak: h.weak(),
                 h: if keep { Some(h) } else { None },
                 pair,
+                trip,
                 rk: rk.clone(),
                 scope,
                 clean,
@@ -356,8 +378,9 @@ impl World {
             .filter(|(_, e)| {
                 e.h.is_some()
                     && match pool {
-                        Pool::I => !e.pair,
+                        Pool::I => !e.pair && !e.trip,
                         Pool::P => e.pair,
+                        Pool::Q => e.trip,
                         Pool::Any => true,
                     }
             })
@@ -368,6 +391,9 @@ impl World {
         let p = self.pool(pool);
         if p.is_empty() {
             None
+        } else if idx == usize::MAX {
+            // "the most recently created one"
+            p.last().copied()
         } else {
             Some(p[idx % p.len()])
         }
@@ -377,7 +403,7 @@ impl World {
             .borrow()
             .iter()
             .enumerate()
-            .filter(|(_, e)| e.h.is_some() && !e.pair && e.clean)
+            .filter(|(_, e)| e.h.is_some() && !e.pair && !e.trip && e.clean)
             .map(|(i, _)| i)
             .collect()
     }
@@ -458,11 +484,12 @@ pub fn rk_inputs(rk: &RK) -> Vec<Hid> {
         | RK::MapP { src, .. }
         | RK::MapIP { src }
         | RK::MapRef { src, .. }
+        | RK::MapRefQ { src }
         | RK::MapWithOld { src, .. }
         | RK::BMap { src, .. }
         | RK::Memo { src, .. } => vec![*src],
         RK::MapN { srcs, .. } | RK::Fold { srcs, .. } | RK::BFold { srcs, .. } => srcs.clone(),
-        RK::Zip { a, b } | RK::DependOn { a, b } | RK::BMap2 { a, b, .. } => vec![*a, *b],
+        RK::Zip { a, b } | RK::ZipQ { a, b } | RK::DependOn { a, b } | RK::BMap2 { a, b, .. } => vec![*a, *b],
         RK::Bind { lhs, outers, .. } => {
             let mut v = vec![*lhs];
             v.extend(outers.iter().copied());
